@@ -45,7 +45,9 @@ OPEN_STATEMENTS = [
     'spinorb_from_spatial (which blocks are filled, bijection with (p,q,r,s,sigma,tau)), trivial-partition identity.',
     'RDM maps / chemist reordering as statements about expectation values and coefficient sums: oracle only.  Proved: the '
     'term-level operator identities in any ring with the CAR (chemist_reorder_term, particle_hole_term, two_hole_term with '
-    'exactly the code\'s three correction terms, contraction_identity_term) and that the pairs of maps are mutually inverse; '
+    'exactly the code\'s three correction terms, contraction_identity_term), that the pairs of maps are mutually inverse, and '
+    'that the contraction of the two-hole map agrees with eye - opdm.T for every (complex, non-symmetric) 1-RDM / 2-RDM pair '
+    'satisfying the trace and contraction conditions (one_hole_agrees_with_two_hole_contraction); '
     'the linear step (summing with coefficients / taking <psi|.|psi>, N-hat = N on the sector) is not formalised.',
 ]
 
@@ -629,11 +631,22 @@ def stream_rdm(ctx):
     if ctx.drift:
         N_ = max(N_, 120)
     reqs, keep = [], []
-    for t in range(N_):
-        n = rng.choice([2, 3, 3, 4, 4])
-        Np = rng.randint(0, n)
-        real = rng.random() < 0.4
-        psi = rand_state(rng, n, Np, real)
+    # fixed complex states with a non-symmetric 1-RDM (the input class of the repaired transposition defect)
+    fixed = []
+    for n_, bits in ((2, ('10', '01')), (3, ('100', '010')), (3, ('110', '011')), (4, ('1100', '0110'))):
+        v = np.zeros(2 ** n_, dtype=complex)
+        v[int(bits[0], 2)] = 0.6
+        v[int(bits[1], 2)] = 0.8j
+        fixed.append((n_, bits[0].count('1'), v))
+    for t in range(N_ + len(fixed)):
+        if t < len(fixed):
+            n, Np, psi = fixed[t]
+            real = False
+        else:
+            n = rng.choice([2, 3, 3, 4, 4])
+            Np = rng.randint(0, n)
+            real = rng.random() < 0.4
+            psi = rand_state(rng, n, Np, real)
         c = {'n': n, 'N': Np, 'real': real, 'state': {format(i, '0%db' % n): [psi[i].real, psi[i].imag] for i in np.nonzero(psi)[0]}}
         s.case(c)
         s.count('n=%d,N=%d' % (n, Np))
@@ -664,7 +677,6 @@ def stream_rdm(ctx):
             s.count('map:' + name)
             s.float_comparisons += 2
             if err(out - d[target]) > TOL:
-                cc['opdm_is_real_symmetric'] = bool(err(d['opdm'] - d['opdm'].T) <= TOL)
                 s.violate('map_%s: result differs from the directly computed %s (max deviation %.3g)'
                           % (name, target, err(out - d[target])), cc, {})
             rq = {'op': 'c17.rdm', 'fn': name, 'n': n}
@@ -676,6 +688,17 @@ def stream_rdm(ctx):
                 rq['d'] = [int(args['d']), 1]
             reqs.append(rq)
             keep.append(('map', cc, out))
+        # --- the two routes to the 1-hole-RDM agree (contraction of the 2-hole-RDM vs. direct map), complex states included
+        s.count('opdm:%s' % ('symmetric' if err(d['opdm'] - d['opdm'].T) <= TOL else 'non-symmetric'))
+        if holes - 1 != 0:
+            try:
+                via2 = Rm.map_two_hole_dm_to_one_hole_dm(Rm.map_two_pdm_to_two_hole_dm(d['tpdm'], d['opdm']), holes)
+                via1 = Rm.map_one_pdm_to_one_hole_dm(d['opdm'])
+                s.count('oracle:one-hole-routes-agree')
+                if err(np.asarray(via2) - np.asarray(via1)) > TOL:
+                    s.violate('map_one_pdm_to_one_hole_dm disagrees with the contraction of map_two_pdm_to_two_hole_dm', dict(c, map='one_hole_routes'), {})
+            except Exception as e:
+                s.violate('one-hole routes raised %s: %s' % (type(e).__name__, e), dict(c, map='one_hole_routes'), {})
         # --- get_interaction_rdm from measured Pauli expectations
         if n <= 3 or t % 3 == 0:
             qop = of.QubitOperator()
@@ -743,44 +766,6 @@ def stream_rdm(ctx):
 # ----------------------------------------------------------------------------- entry points
 
 
-def classify(v):
-    inp = v.get('input', {})
-    what = v.get('what', '')
-    # F17a: final_rank = 0 reports truncation value 0 although everything is discarded
-    if inp.get('final_rank') == 0 and what.startswith('reported truncation value'):
-        return 'F17a'
-    # F17b: one-hole <-> one-particle maps are not transposed: wrong for non-symmetric (complex) 1-RDMs
-    if inp.get('map') in ('one_pdm_to_one_hole', 'one_hole_to_one_pdm') and inp.get('opdm_is_real_symmetric') is False:
-        return 'F17b'
-    return None
-
-
-def probe_known(ctx, k):
-    of = ctx.of
-    if k['id'] == 'F17a':
-        from openfermion.circuits import low_rank
-        h = np.zeros((2, 2, 2, 2))
-        h[0, 1, 1, 0] = h[1, 0, 0, 1] = 0.5
-        try:
-            lam, sq, corr, tv = low_rank.low_rank_two_body_decomposition(h, final_rank=0)
-            lam1, sq1, _, _ = low_rank.low_rank_two_body_decomposition(h, final_rank=1)
-            w = abs(lam1[0]) * np.sum(np.absolute(sq1[0])) ** 2
-            return bool(len(lam) == 0 and abs(tv) < TOL and w > 1e-3)
-        except Exception:
-            return True
-    if k['id'] == 'F17b':
-        from openfermion.utils import rdm_mapping_functions as Rm
-        psi = np.zeros(4, dtype=complex)
-        psi[2] = 1 / np.sqrt(2)      # |10>
-        psi[1] = 1j / np.sqrt(2)     # |01>
-        d = direct_rdms(psi, 2)
-        try:
-            return bool(err(Rm.map_one_pdm_to_one_hole_dm(d['opdm']) - d['oqdm']) > TOL)
-        except Exception:
-            return True
-    return False
-
-
 def replay(ctx, payload):
     """re-run the oracle of a recorded violation; True = the recorded input no longer fails"""
     v = payload.get('violation')
@@ -808,6 +793,9 @@ def replay(ctx, payload):
                 'ph_to_two_pdm': (lambda: Rm.map_particle_hole_dm_to_two_pdm(d['phdm'], d['opdm']), 'tpdm'),
                 'ph_to_one_pdm': (lambda: Rm.map_particle_hole_dm_to_one_pdm(d['phdm'], Np, n), 'opdm'),
             }
+            if inp.get('map') == 'one_hole_routes':
+                via2 = Rm.map_two_hole_dm_to_one_hole_dm(Rm.map_two_pdm_to_two_hole_dm(d['tpdm'], d['opdm']), holes)
+                return bool(err(np.asarray(via2) - np.asarray(Rm.map_one_pdm_to_one_hole_dm(d['opdm']))) <= TOL)
             if 'map' in inp:
                 call, target = table[inp['map']]
                 return bool(err(np.asarray(call()) - d[target]) <= TOL)
